@@ -52,9 +52,9 @@ def replay_utf(ws, pid, unit_, job_, rec, failed, report):
     if conv is None: return False
     if job_['name'].startswith('bounded.'): brec = rec
     else:
-        bj = dict(name='replay.bounded.' + conv, entry='hb_' + conv, defines=['BOUNDED=4'], unwind=6, solver='kissat', timeout=900)
+        bj = dict(name='replay.bounded.' + conv, entry='hb_' + conv, defines=['BOUNDED=3'], unwind=5, solver='kissat', timeout=300)
         brec = runner.run_job(ws, UNITS['utf_bounded'], bj, 'quick')
-        report['bounded_rerun'] = {'status': brec['status'], 'failed': [o['description'] for o in brec.get('failed', [])], 'bound': 'source <= 4 units', 'detail': brec.get('detail', '')[:500]}
+        report['bounded_rerun'] = {'status': brec['status'], 'failed': [o['description'] for o in brec.get('failed', [])], 'bound': 'source <= 3 units', 'detail': brec.get('detail', '')[:500]}
     for ob in brec.get('failed', [])[:3]:
         args = ['fn=' + conv] + replay_inputs_from_trace(ob.get('inputs', {}))
         out = native_replay(ws, 'utf.cpp', args, report)
